@@ -1,7 +1,7 @@
 CONSTANTS
   Names = {1, 2, 3}
   OrderIdx = {1, 4}
-  Waiters = {1}
+  Waiters = {1, 2}
   MaxAdds = 3
   LateSets = {{}, {1, 2, 3}}
   HoldNames = {3}
